@@ -245,6 +245,32 @@ def run(ctx):
     for e in nrd:
         guarded(ctx, 'C01.T1', cn, e, lambda a: mentions_field(a, 'Edge::deps_missing_'), False,
                 'CleanNode never re-evaluates an edge whose deps are missing', construct='CleanNode:deps_missing-unchecked')
+    # deps are loaded on the first visit only: what that visit found out (deps missing => rebuild) must survive a later
+    # visit of the same edge (re-scan after a dyndep load).  (i) the flag is cleared only on a visit that recomputes it;
+    # (ii) a later visit that still sees the flag ends with the edge dirty.
+    def first_visit(a):
+        return mentions_field(a, 'Edge::deps_loaded_') or is_var('edge_deps_loaded')(a)
+    clears = [e for f_, e, kind, rhs in field_writes(prog, 'Edge::deps_missing_') if f_.name == scan.name and not e.get('init') and const_value(rhs) == 0]
+    for e in clears:
+        ok = fact_holds(scan.facts_at(e), first_visit, False) or fact_holds(scan.facts_at_block(e['_b']), first_visit, False)
+        ctx.check('C01.T1', ok, scan.name, 'deps_missing_:cleared-on-revisit', scan.where(e),
+                  'deps_missing_ is cleared only on the visit that loads the deps (the first one)')
+    n_rev = sum(1 for bid, b in scan.blocks.items() for i, s2 in enumerate(b['succ']) if s2 is not None and
+                any(p_ is True and first_visit(a) for k_, p_, a in scan.edge_facts(bid, i)))
+    reads = []
+    for bid, b in scan.blocks.items():
+        later = fact_holds(scan.facts_at_block(bid), first_visit, True)
+        for x in b['ev']:
+            if x['k'] in ('asg', 'decl') and mentions_field(x.get('r') if x['k'] == 'asg' else x.get('init'), 'Edge::deps_missing_'):
+                reads.append((x, later or fact_holds(scan.facts_at(x), first_visit, True)))
+        t = b.get('term') or {}
+        if mentions_field(t.get('cond'), 'Edge::deps_missing_'):
+            reads.append(({'_b': bid, 'line': t.get('line')}, later))
+    ctx.check('C01.T1', any(l for x, l in reads), scan.name, 'deps_missing_:ignored-on-revisit', scan.loc,
+              'a later visit of an edge (deps already loaded) consults what the first visit found out about its deps: '
+              'deps_missing_ is read under "not the first visit" (%d reads, %d there)' % (len(reads), sum(1 for x, l in reads if l)))
+    ctx.check('C01.T1', n_rev >= 1 and bool(clears), scan.name, 'deps_missing_:no-first-visit-test', scan.loc,
+              'the scan tells the first visit of an edge from later ones, and clears deps_missing_ somewhere')
     ctx.floor('C01.T1', 3)
 
     # ---- V1 / O2: start-time mtime ------------------------------------------------------------------
